@@ -429,6 +429,9 @@ def run(ctx):
         timed('history', wl_history, ctx, R)
         timed('forms', wl_forms, ctx, R)
         timed('foreign', wl_foreign, ctx, R)
+        timed('scale-units', wl_scale_units, ctx, R)
+        timed('special', wl_special, ctx, R)
+        timed('sizes', wl_sizes, ctx, R)
         ctx.note('workload_seconds(first shard)', secs)
     finally:
         config.precision = old
@@ -1114,6 +1117,415 @@ def wl_foreign(ctx, R):
                               note='after foreign traffic through the other consumers of the shared helpers', adjoint_first=True)
         finally:
             config.precision = 64
+
+
+# ------------------------------------------------------------------------------------------ hardening pass 3: classes G / H / I
+RULE = RULE + ('.  Hardening pass 3 -- class G: homogeneity F(s a) = s F(a) for s = 1e-12 ... 1e12 (both routes, both methods, every shift pattern), '
+               'to_fpm_and_back homogeneous in the field and in the mask, the embedding relation on fields of those magnitudes, and every routine in '
+               'other consistent units (metres everywhere, microns everywhere, nm in the focal plane, pupil x 1024, ...: equal results).  Class H: the '
+               'embedding and transposition relations where the requested output grid is EXACTLY an FFT grid of the un-embedded array (the library\'s own '
+               'Q_for_sampling returns 1, 2, 3 exactly; output_samples equal to the input shape or Q times it) with every shift pattern (x only, y only, '
+               'both, none; zero component as int 0 / float 0.0); the all-pass identity on a band of exactly the pupil size (Q = 1 exactly on both legs).  '
+               'Class I: thin arrays whose long axis has 65 ... 1024 samples (embedding, transposition, linearity), and the all-pass identity on bands '
+               'whose size over the pupil size is within 1e-3 of an integer')
+ASSUMPTIONS = ASSUMPTIONS + [
+    'homogeneity is compared at 1e-11 (single precision: the relation tolerance) of max|s F(a)|; unit invariance at the relation tolerance of the call; '
+    'exactly-special geometries are produced with the library\'s own expressions, draws for which the library\'s Q is not exactly the integer are excluded and counted',
+]
+REQUIRED = REQUIRED + ['scale.homogeneity', 'scale.unit-invariance', 'special.fft-grid-relations', 'size.large-or-prime']
+
+
+class RawShift:
+    """A shift tuple handed over as it is (an int 0 stays an int 0); same interface as ShiftArg."""
+    kind = 'tuple'
+    lowprec = False
+
+    def __init__(self, values):
+        self.obj = tuple(values)
+        self.values = tuple(float(v) for v in values)
+
+    def fresh(self):
+        return self.obj
+
+    def mutated(self):
+        return False
+
+
+def _typed_shift(s, unit):
+    return tuple((v * unit if v != 0 else v) for v in s)
+
+
+def wl_scale_units(ctx, R):
+    """Class G: homogeneity, scaled-field embedding, and invariance under a consistent change of units."""
+    from .. import propforms as PF
+    from ..util import precision
+    n = ctx.pick(800, 400000)
+    st = [0]
+    for k in range(n):
+        if not ctx.mine(k):
+            continue
+        _tick(st)
+        rng = case_rng(ctx, 11, k)
+        j = k // ctx.nshards
+        what = ('homogeneity', 'units', 'tfb-homogeneity', 'tfb-units', 'scaled-embedding')[j % 5]
+        route = ('focus', 'unfocus')[int(rng.integers(2))]
+        method = METHODS[int(rng.integers(2))]
+        acls = ARRAY_CLASSES[int(rng.integers(len(ARRAY_CLASSES)))]
+        ocls = ['sq:e', 'sq:o', 'nonsq'][int(rng.integers(3))]
+        pname, s = PF.SHIFT_PATTERNS[int(rng.integers(len(PF.SHIFT_PATTERNS)))]
+        lo, hi = 4, ctx.pick(12, 32)
+        in_shape, idx, efl, wvl, odx, samples, _sh, _s = setup_fixed(rng, route, acls, ocls, '0', lo, hi)
+        seed = int(rng.integers(2**31 - 1))
+        v = int(rng.integers(1 << 30))
+        bits, dbits = precision_class(v)
+        single = bits == 32 or dbits == 32
+        use_wf = bool(v % 2)
+        sv = PF.SCALES[int(rng.integers(len(PF.SCALES)))]
+        uname, al, be, ga, de = PF.UNIT_SYSTEMS[int(rng.integers(len(PF.UNIT_SYSTEMS)))]
+        r2 = np.random.default_rng(seed)
+        a = to_bits(cnormal(r2, in_shape), dbits)
+        sf = (float(s[0]), float(s[1]))
+        desc = {'rel': what, 'route': route, 'method': method, 'in_shape': in_shape, 'samples': samples, 'input_dx': idx, 'efl': efl, 'wavelength': wvl,
+                'output_dx': odx, 'shift_samples': s, 'seed': seed, 'precision': bits, 'data_bits': dbits, 'api': 'Wavefront' if use_wf else 'function'}
+        pc = f':p{bits}/d{dbits}' if (bits, dbits) != (64, 64) else ''
+        if what in ('homogeneity', 'units', 'scaled-embedding'):
+            sh = RawShift(_typed_shift(s, odx))
+            if what == 'scaled-embedding':
+                big = tuple(int(rng.integers(n_, int(2.5 * n_) + 2)) for n_ in in_shape)
+                if big == in_shape:
+                    big = (big[0] + 1, big[1])
+                sa = (a * sv).astype(a.dtype)
+                desc.update(s=sv, embedded_shape=big)
+                desc['class'] = f'scaled-embedding:{route}:{method}:{acls}->{ocls}:{PF.scale_class(sv)}:shift={pname}{pc}'
+                ctx.case(desc)
+                g = geom_label(route, method, [in_shape, big], [samples])
+                shifted = pname != 'none'
+                key = rel_key('embedding', route, method, g, shifted)
+                rtol, atol = fixed_tolerance(ctx, single, sh, method, [in_shape, big], idx, odx, wvl, efl, [samples] * 2, sf, [sa, sa])
+                if rtol is None and atol is None:
+                    continue
+
+                def inst(shift_obj):
+                    f1 = R.fixed(route, sa, idx, efl, wvl, odx, samples, shift_obj, method, desc, key)
+                    f2 = R.fixed(route, place(sa, big), idx, efl, wvl, odx, samples, shift_obj, method, desc, key)
+                    return None if (f1 is None or f2 is None) else (f2, f1, None)
+                with precision(bits):
+                    judge(ctx, 'embedding', inst, sh, key, rel_what('embedding', route, method, g) + f' [field of magnitude {sv:g}]', desc, rtol=rtol or RTOL,
+                          abs_tol=atol, modulus=shifted)
+                continue
+            if what == 'homogeneity':
+                desc.update(s=sv)
+                desc['class'] = f'homogeneity:{route}:{method}:{acls}->{ocls}:{PF.scale_class(sv)}:shift={pname}{pc}'
+                ctx.case(desc)
+                key = f'C05/homogeneity/{route}/{method}/scale:{PF.scale_class(sv)}'
+                rtol, atol = fixed_tolerance(ctx, single, sh, method, [in_shape] * 2, idx, odx, wvl, efl, [samples] * 2, sf, [a * sv, a * sv])
+                if rtol is None and atol is None:
+                    continue
+
+                def inst(shift_obj):
+                    f1 = R.fixed(route, a, idx, efl, wvl, odx, samples, shift_obj, method, desc, key, use_wf)
+                    f2 = R.fixed(route, (a * sv).astype(a.dtype), idx, efl, wvl, odx, samples, shift_obj, method, desc, key, use_wf)
+                    return None if (f1 is None or f2 is None) else (f2, sv * f1, None)
+                with precision(bits):
+                    judge(ctx, 'scale.homogeneity', inst, sh, key,
+                          f'{route}_fixed_sampling(method={method}) is linear, but F(s a) != s F(a) for a field of magnitude s (tiny: s <= 1e-3, huge: s >= 1e3)', desc,
+                          rtol=(1e-11 if rtol else RTOL), abs_tol=atol)
+                continue
+            desc.update(units=uname)
+            desc['class'] = f'units:{route}:{method}:{acls}->{ocls}:{uname}:shift={pname}{pc}'
+            ctx.case(desc)
+            key = f'C05/unit-invariance/{route}/{method}'
+            rtol, atol = fixed_tolerance(ctx, single, sh, method, [in_shape] * 2, idx, odx, wvl, efl, [samples] * 2, sf, [a, a])
+            if rtol is None and atol is None:
+                continue
+            Qp = tuple(wvl * efl / (n_ * idx * odx) for n_ in in_shape)
+            cond = 1000 * float(np.finfo(np.float64).eps) * kernel_phase(method, in_shape, Qp, samples, sf) * bound(a, in_shape, Qp)
+
+            def inst(shift_obj):
+                f1 = R.fixed(route, a, idx, efl, wvl, odx, samples, shift_obj, method, desc, key, use_wf)
+                f2 = R.fixed(route, a, idx * al, efl * be, wvl * ga, odx * de, samples, _typed_shift(s, odx * de), method, desc, key, use_wf)
+                return None if (f1 is None or f2 is None) else (f2, f1, None)
+            with precision(bits):
+                r = inst(sh.obj)
+                if r is None:
+                    continue
+                ctx.observe('scale.unit-invariance')
+                ref_max = float(np.max(np.abs(r[1]))) if np.isfinite(r[1]).all() else 0.0
+                tol = atol if atol is not None else max(RTOL * ref_max, cond)
+                err = max_err(r[0], r[1]) if r[0].shape == r[1].shape else float('inf')
+                if not err <= tol:
+                    ctx.violation(key, f'{route}_fixed_sampling(method={method}): the same propagation expressed in other consistent units (lambda f / (dx_in dx_out) '
+                                  'and shift / dx_out unchanged) gives another field', desc, err=err, tol=tol)
+            continue
+        # to_fpm_and_back
+        shp = draw_shape(rng, acls, lo, hi)
+        mshape = draw_shape(rng, ocls, lo, hi + 6)
+        dx = idx if route == 'focus' else odx
+        fdx = wvl * efl / (max(shp) * dx) * logu(rng, 0.3, 2.5)
+        sh = RawShift(_typed_shift(s, fdx))
+        a = to_bits(cnormal(r2, shp), dbits)
+        m1 = to_bits(cnormal(r2, mshape) if v % 3 else r2.random(mshape), dbits)
+        desc = {'rel': what, 'method': method, 'shape': shp, 'mask_shape': mshape, 'dx': dx, 'efl': efl, 'wavelength': wvl, 'fpm_dx': fdx, 'shift_samples': s, 'seed': seed,
+                'precision': bits, 'data_bits': dbits, 'api': 'Wavefront' if use_wf else 'function'}
+        rtol, atol = tfb_tolerance(ctx, single, sh, method, a, shp, mshape, dx, fdx, wvl, efl, sf, mask_max=float(np.max(np.abs(m1))))
+        if rtol is None and atol is None:
+            continue
+        if what == 'tfb-homogeneity':
+            which = ('field', 'mask')[(j // 5) % 2]
+            desc.update(s=sv, scaled=which)
+            desc['class'] = f'tfb-homogeneity:{method}:{acls}:mask={ocls}:{which}:{PF.scale_class(sv)}:shift={pname}{pc}'
+            ctx.case(desc)
+            key = f'C05/to_fpm_and_back/{method}/scale:{PF.scale_class(sv)}/not-homogeneous-in-the-{which}'
+
+            def inst(shift_obj):
+                t1 = R.tfb(a, dx, efl, wvl, m1, fdx, shift_obj, method, desc, key, use_wf)
+                if which == 'field':
+                    t2 = R.tfb((a * sv).astype(a.dtype), dx, efl, wvl, m1, fdx, shift_obj, method, desc, key, use_wf)
+                else:
+                    t2 = R.tfb(a, dx, efl, wvl, (m1 * sv).astype(m1.dtype), fdx, shift_obj, method, desc, key, use_wf)
+                return None if (t1 is None or t2 is None) else (t2, sv * t1, None)
+            with precision(bits):
+                judge(ctx, 'scale.homogeneity', inst, sh, key, f'to_fpm_and_back(method={method}) is linear in the field and in the mask, but a {which} of magnitude s '
+                      'does not give s times the result', desc, rtol=(1e-11 if rtol else RTOL), abs_tol=None if atol is None else atol * sv * 2)
+        else:
+            desc.update(units=uname)
+            desc['class'] = f'tfb-units:{method}:{acls}:mask={ocls}:{uname}:shift={pname}{pc}'
+            ctx.case(desc)
+            key = f'C05/unit-invariance/to_fpm_and_back/{method}'
+
+            def inst(shift_obj):
+                t1 = R.tfb(a, dx, efl, wvl, m1, fdx, shift_obj, method, desc, key, use_wf)
+                t2 = R.tfb(a, dx * al, efl * be, wvl * ga, m1, fdx * de, _typed_shift(s, fdx * de), method, desc, key, use_wf)
+                return None if (t1 is None or t2 is None) else (t2, t1, float(np.sqrt(np.sum(np.abs(a) ** 2))) * max(float(np.max(np.abs(m1))), 1e-300))
+            with precision(bits):
+                r = inst(sh.obj)
+                if r is None:
+                    continue
+                ctx.observe('scale.unit-invariance')
+                Q1 = tuple(wvl * efl / (n_ * dx * fdx) for n_ in shp)
+                Q2 = tuple(wvl * efl / (n_ * dx * fdx) for n_ in mshape)
+                eps = float(np.finfo(np.float64).eps)
+                phi = kernel_phase(method, shp, Q1, mshape, sf) + kernel_phase(method, mshape, Q2, shp, sf)
+                tol = atol * 2 if atol is not None else max(RTOL, 1000 * eps * phi) * r[2]
+                err = max_err(r[0], r[1]) if r[0].shape == r[1].shape else float('inf')
+                if not err <= tol:
+                    ctx.violation(key, f'to_fpm_and_back(method={method}): the same trip expressed in other consistent units gives another field', desc, err=err, tol=tol)
+
+
+def wl_special(ctx, R):
+    """Class H: relations where the requested grid is exactly an FFT grid of the (un-embedded) array and a shift is requested."""
+    from .. import propforms as PF
+    from prysm import propagation as P
+    from ..util import precision
+    k = -1
+    st = [0]
+    for rep in range(ctx.pick(2, 500)):
+        hi = 9 if rep == 0 else ctx.pick(12, 32)
+        for route in ('focus', 'unfocus'):
+            for method in METHODS:
+                for q in (1, 2, 3):
+                    for ocls in ('same-as-input', 'fft-grid'):
+                        for pname, s in PF.SHIFT_PATTERNS:
+                            for rel in ('embedding', 'transpose', 'allpass'):
+                                k += 1
+                                if not ctx.mine(k):
+                                    continue
+                                if rel == 'allpass' and (route == 'unfocus' or ocls == 'fft-grid' or q != 1):
+                                    continue
+                                _tick(st)
+                                rng = case_rng(ctx, 12, k)
+                                v = int(rng.integers(1 << 30))
+                                N = int(rng.integers(4, hi + 1))
+                                nonsq = rel != 'allpass' and (v // 11) % 4 == 3
+                                shp = (N, N) if not nonsq else (N, int(rng.integers(3, hi + 1)))
+                                g = PF.exact_Q_geometry(rng, N, q)
+                                if g is None:
+                                    ctx.skip('special: no draw for which the library\'s own Q is exactly the integer')
+                                    continue
+                                wvl, efl, idx, odx = g
+                                if P.Q_for_sampling(N * idx, efl, wvl, odx) != q:
+                                    ctx.skip('special: the library\'s own Q is not exactly the integer for this draw')
+                                    continue
+                                ulp = ('', '+1ulp', '', '-1ulp', '', '')[(v // 5) % 6] if rel != 'allpass' else ''      # special only up to rounding
+                                if ulp:
+                                    odx = float(np.nextafter(odx, np.inf if ulp == '+1ulp' else 0.0))
+                                samples = shp if ocls == 'same-as-input' else (shp[0] * q, shp[1] * q)
+                                seed = int(rng.integers(2**31 - 1))
+                                bits, dbits = precision_class(v)
+                                single = bits == 32 or dbits == 32
+                                a = to_bits(cnormal(np.random.default_rng(seed), shp), dbits)
+                                sh = RawShift(_typed_shift(s, odx))
+                                sf = (float(s[0]), float(s[1]))
+                                shifted = pname != 'none'
+                                desc = {'rel': 'special-' + rel, 'route': route, 'method': method, 'in_shape': shp, 'samples': samples, 'input_dx': idx, 'efl': efl, 'wavelength': wvl,
+                                        'output_dx': odx, 'Q_library': q, 'shift_samples': s, 'seed': seed, 'precision': bits, 'data_bits': dbits,
+                                        'class': f'special:{rel}:{route}:{method}:Q=={q}{ulp}:{ocls}:{"nonsq" if nonsq else "sq:" + parity(N)}:shift={pname}'
+                                                 + (f':p{bits}/d{dbits}' if (bits, dbits) != (64, 64) else '')}
+                                ctx.case(desc)
+                                ctx.observe('special.fft-grid-relations')
+                                use_wf = bool(v % 2)
+                                with precision(bits):
+                                    if rel == 'embedding':
+                                        big = tuple(int(rng.integers(n_ + 1, int(2.5 * n_) + 3)) for n_ in shp)
+                                        desc['embedded_shape'] = big
+                                        gl = geom_label(route, method, [shp, big], [samples])
+                                        key = rel_key('embedding', route, method, gl, shifted)
+                                        rtol, atol = fixed_tolerance(ctx, single, sh, method, [shp, big], idx, odx, wvl, efl, [samples] * 2, sf, [a, a])
+                                        if rtol is None and atol is None:
+                                            continue
+
+                                        def inst(shift_obj):
+                                            f1 = R.fixed(route, a, idx, efl, wvl, odx, samples, shift_obj, method, desc, key, use_wf)
+                                            f2 = R.fixed(route, place(a, big), idx, efl, wvl, odx, samples, shift_obj, method, desc, key, use_wf)
+                                            return None if (f1 is None or f2 is None) else (f2, f1, None)
+                                        judge(ctx, 'embedding', inst, sh, key, rel_what('embedding', route, method, gl) + ' [requested grid exactly an FFT grid of the un-embedded array]',
+                                              desc, rtol=rtol or RTOL, abs_tol=atol, modulus=shifted, compared='moduli' if shifted else 'complex')
+                                    elif rel == 'transpose':
+                                        gl = geom_label(route, method, [shp, shp[::-1]], [samples, samples[::-1]])
+                                        key = rel_key('transpose', route, method, gl, shifted)
+                                        rtol, atol = fixed_tolerance(ctx, single, sh, method, [shp, shp[::-1]], idx, odx, wvl, efl, [samples, samples[::-1]], sf, [a, a])
+                                        if rtol is None and atol is None:
+                                            continue
+
+                                        def inst(shift_obj):
+                                            f1 = R.fixed(route, a, idx, efl, wvl, odx, samples, shift_obj, method, desc, key, use_wf)
+                                            f2 = R.fixed(route, np.ascontiguousarray(a.T), idx, efl, wvl, odx, samples[::-1], shift_obj[::-1], method, desc, key, use_wf)
+                                            return None if (f1 is None or f2 is None) else (f2, f1.T, None)
+                                        judge(ctx, 'transposition', inst, sh, key, rel_what('transpose', route, method, gl) + ' [requested grid exactly an FFT grid]', desc,
+                                              rtol=rtol or RTOL, abs_tol=atol)
+                                    else:
+                                        # band of exactly the pupil size: Q == 1 exactly on both legs
+                                        label = tfb_label(method, shp, N)
+                                        key = tfb_key(method, label, shifted)
+                                        rtol, atol = tfb_tolerance(ctx, single, sh, method, a, shp, (N, N), idx, odx, wvl, efl, sf)
+                                        if rtol is None and atol is None:
+                                            continue
+                                        ones = ones_mask(v // 7, (N, N))
+
+                                        def inst(shift_obj):
+                                            o = R.tfb(a, idx, efl, wvl, ones, odx, shift_obj, method, desc, key, use_wf, more=bool((v // 7) % 3 == 0))
+                                            return None if o is None else (o, a, None)
+                                        judge(ctx, 'allpass-identity', inst, sh, key, tfb_what(method, label, shifted) + ' [band of exactly the pupil size: Q = 1 on both legs]', desc,
+                                              rtol=rtol or RTOL, abs_tol=atol)
+
+
+def wl_sizes(ctx, R):
+    """Class I: thin arrays whose long axis has 65 ... 1024 samples: embedding / transposition / linearity through both routes, and
+    the all-pass identity on a band whose size over the pupil size is within 1e-3 of an integer (mdft and czt, unshifted)."""
+    from .. import propforms as PF
+    from prysm import fttools
+    jobs = [(nn, [nn, nn + 1, 2 * nn, 97][i % 4]) for i, nn in enumerate(PF.AWKWARD_SIZES + PF.LARGE_SIZES[:ctx.pick(3, 5)])]
+    jobs += [(nn, MM) for (nn, MM) in PF.NEAR_INTEGER_PAIRS[:ctx.pick(3, 8)]]
+    if not ctx.quick:
+        g_ = np.random.default_rng([ctx.seed, 977])
+        jobs += [(int(g_.integers(64, 1100)), int(g_.integers(64, 1300))) for _ in range(120)]
+    k = -1
+    for ji, (nn, MM) in enumerate(jobs):
+        for route in ('focus', 'unfocus'):
+            for method in METHODS:
+                for rel in ('embedding', 'transpose', 'linearity'):
+                    k += 1
+                    if not ctx.mine(k):
+                        continue
+                    if ctx.quick and (k // ctx.nshards) % 2 and nn > 300:
+                        continue
+                    rng = case_rng(ctx, 13, k)
+                    shp = PF.thin(nn, ji + k)
+                    samples = tuple(MM if v_ == nn else (v_ if v_ > 1 else 1) for v_ in shp)
+                    along_x = shp[1] == nn
+                    wvl, efl, dx = physical(rng)
+                    if route == 'focus':
+                        idx, odx = dx, PF.lib_spacing(dx, MM, wvl, efl) if (nn, MM) in PF.NEAR_INTEGER_PAIRS else wvl * efl / (nn * dx) * logu(rng, 0.3, 2.5)
+                    else:
+                        odx, idx = dx, PF.lib_spacing(dx, MM, wvl, efl) if (nn, MM) in PF.NEAR_INTEGER_PAIRS else wvl * efl / (MM * dx) * logu(rng, 0.3, 2.5)
+                    shifted = bool((k // ctx.nshards) % 3 == 1)
+                    s = (0, 0) if not shifted else ((2.5, 0) if along_x else (0.0, -3))
+                    sh = RawShift(_typed_shift(s, odx))
+                    seed = int(rng.integers(2**31 - 1))
+                    r2 = np.random.default_rng(seed)
+                    a = cnormal(r2, shp)
+                    desc = {'rel': 'sizes-' + rel, 'route': route, 'method': method, 'in_shape': shp, 'samples': samples, 'input_dx': idx, 'efl': efl, 'wavelength': wvl,
+                            'output_dx': odx, 'shift_samples': s, 'seed': seed,
+                            'class': f'sizes:{rel}:{route}:{method}:{"x" if along_x else "y"}-axis:{nn}->{MM}:{"shifted" if shifted else "unshifted"}'}
+                    ctx.case(desc)
+                    ctx.observe('size.large-or-prime')
+                    Qp = tuple(wvl * efl / (n_ * idx * odx) for n_ in shp)
+                    sf = (float(s[0]), float(s[1]))
+                    eps = float(np.finfo(np.float64).eps)
+                    if rel == 'embedding':
+                        big = tuple(v_ + (int(rng.integers(1, 40)) if v_ == nn else int(rng.integers(0, 3))) for v_ in shp)
+                        desc['embedded_shape'] = big
+                        gl = geom_label(route, method, [shp, big], [samples])
+                        key = rel_key('embedding', route, method, gl, shifted) + '/size:long-axis'
+                        # large arrays: the threshold follows the kernel phase (C01's conditioning rule)
+                        Qb = tuple(wvl * efl / (n_ * idx * odx) for n_ in big)
+                        rt = max(RTOL, 1000 * eps * max(kernel_phase(method, shp, Qp, samples, sf), kernel_phase(method, big, Qb, samples, sf)))
+
+                        def inst(shift_obj):
+                            f1 = R.fixed(route, a, idx, efl, wvl, odx, samples, shift_obj, method, desc, key)
+                            f2 = R.fixed(route, place(a, big), idx, efl, wvl, odx, samples, shift_obj, method, desc, key)
+                            return None if (f1 is None or f2 is None) else (f2, f1, bound(a, shp, Qp))
+                        judge(ctx, 'embedding', inst, sh, key, rel_what('embedding', route, method, gl) + ' [thin array, long axis]', desc, rtol=rt, modulus=shifted)
+                    elif rel == 'transpose':
+                        gl = geom_label(route, method, [shp, shp[::-1]], [samples, samples[::-1]])
+                        key = rel_key('transpose', route, method, gl, shifted) + '/size:long-axis'
+                        rt = max(RTOL, 1000 * eps * kernel_phase(method, shp, Qp, samples, sf))
+
+                        def inst(shift_obj):
+                            f1 = R.fixed(route, a, idx, efl, wvl, odx, samples, shift_obj, method, desc, key)
+                            f2 = R.fixed(route, np.ascontiguousarray(a.T), idx, efl, wvl, odx, samples[::-1], shift_obj[::-1], method, desc, key)
+                            return None if (f1 is None or f2 is None) else (f2, f1.T, bound(a, shp, Qp))
+                        judge(ctx, 'transposition', inst, sh, key, rel_what('transpose', route, method, gl) + ' [thin array, long axis]', desc, rtol=rt)
+                    else:
+                        key = f'C05/linearity/{route}/{method}/size:long-axis'
+                        b = cnormal(r2, shp)
+                        al_, be_ = complex(*r2.standard_normal(2)), complex(*r2.standard_normal(2))
+                        rt = max(RTOL, 1000 * eps * kernel_phase(method, shp, Qp, samples, sf))
+
+                        def inst(shift_obj):
+                            fa = R.fixed(route, a, idx, efl, wvl, odx, samples, shift_obj, method, desc, key)
+                            fb = R.fixed(route, b, idx, efl, wvl, odx, samples, shift_obj, method, desc, key)
+                            fc = R.fixed(route, al_ * a + be_ * b, idx, efl, wvl, odx, samples, shift_obj, method, desc, key)
+                            return None if (fa is None or fb is None or fc is None) else (fc, al_ * fa + be_ * fb, (abs(al_) + abs(be_)) * bound(np.abs(a) + np.abs(b), shp, Qp))
+                        judge(ctx, 'linearity', inst, sh, key, f'{route}_fixed_sampling(method={method}) is not linear [thin array, long axis]', desc, rtol=rt)
+                    fttools.mdft.clear()
+                    fttools.czt.clear()
+    # all-pass identity: band size / pupil size within 1e-3 of an integer (thin pupil, P x P mask)
+    k = -1
+    for (nn, MM) in PF.NEAR_INTEGER_PAIRS[:ctx.pick(3, 8)]:
+        for method in METHODS:
+            for use_wf in (False, True):
+                k += 1
+                if not ctx.mine(k):
+                    continue
+                if ctx.quick and k >= 8:
+                    continue
+                rng = case_rng(ctx, 14, k)
+                shp = (1, nn) if k % 2 == 0 else (nn, 1)
+                wvl, efl, dx = physical(rng)
+                fdx = wvl * efl / (dx * MM)
+                seed = int(rng.integers(2**31 - 1))
+                a = cnormal(np.random.default_rng(seed), shp)
+                label = tfb_label(method, shp, MM)
+                key = tfb_key(method, label, False) + '/size:near-integer-Q'
+                desc = {'rel': 'sizes-allpass', 'method': method, 'shape': shp, 'band_samples': MM, 'dx': dx, 'efl': efl, 'wavelength': wvl, 'fpm_dx': fdx, 'shift_samples': (0, 0),
+                        'seed': seed, 'api': 'Wavefront' if use_wf else 'function', 'class': f'sizes:allpass:{method}:{shape_kind_(shp)}:{nn}->{MM}'}
+                ctx.case(desc)
+                ctx.observe('size.large-or-prime')
+                Q1 = tuple(MM / n_ for n_ in shp)
+                eps = float(np.finfo(np.float64).eps)
+                rt = max(RTOL, 1000 * eps * (kernel_phase(method, shp, Q1, (MM, MM), (0., 0.)) + kernel_phase(method, (MM, MM), (1., 1.), shp, (0., 0.))))
+
+                def inst(shift_obj):
+                    o = R.tfb(a, dx, efl, wvl, np.ones((MM, MM)), fdx, shift_obj, method, desc, key, use_wf)
+                    return None if o is None else (o, a, float(np.sqrt(np.sum(np.abs(a) ** 2))))
+                judge(ctx, 'allpass-identity', inst, RawShift((0, 0)), key, tfb_what(method, label, False) + ' [band / pupil size within 1e-3 of an integer]', desc, rtol=rt)
+                fttools.mdft.clear()
+                fttools.czt.clear()
+
+
+def shape_kind_(shp):
+    return 'line' if 1 in shp else ('sq' if shp[0] == shp[1] else 'nonsq')
 
 
 def replay(ctx, rec):
